@@ -1134,7 +1134,7 @@ class Collections:
                 return None
             if isinstance(x, ast.Call) and len(x.args) == 1 and not x.keywords and (_call_name(x) == "Counter" or fn.lib_name(x.func) == "collections.Counter"):
                 return x.args[0]
-            if isinstance(x, ast.Call) and isinstance(x.func, ast.Attribute) and x.func.attr == "fromkeys" and isinstance(x.func.value, ast.Name) and x.func.value.id in ("dict", "OrderedDict") and x.args:
+            if isinstance(x, ast.Call) and isinstance(x.func, ast.Attribute) and x.func.attr == "fromkeys" and isinstance(x.func.value, ast.Name) and x.func.value.id in ("dict", "OrderedDict") and len(x.args) == 1 and not x.keywords:  # with a value it is a table, not a set of keys
                 return x.args[0]
             return None
 
